@@ -127,6 +127,7 @@ def run_history(ops, nservers):
     done = []            # finished requests: (client, peer, invoke, token)
     submitted = []       # every accepted request: dict(client, peer, invoke, token, shadowed)
     server_busy = {}     # (server, client, invoke) -> token the server is still processing
+    used_tokens = {}     # (server, client, invoke) -> every token sent under that key so far
     conf_seen = dict((m, 0) for m in CLIENTS)
     stats = dict(max_live_per_peer=0, injected=0, matched_injections=0, refused_collisions=0)
 
@@ -158,6 +159,13 @@ def run_history(ops, nservers):
         lab.settle()
         process_confirmations()
 
+    def mark_answered(peer, cm, inv):
+        # the peer's own answer with this ID is on its way: whatever the requester makes of it (an acknowledgement, or an abort because
+        # the answer finds it in the middle of retransmitting a segmented request) is an outcome caused by that peer and that ID
+        ent = live.get((cm, peer, inv))
+        if ent is not None:
+            ent["eligible_kinds"].add("abort")
+
     for op in ops:
         k = op[0]
         if k == "req":
@@ -166,6 +174,9 @@ def run_history(ops, nservers):
             explicit = op[3]
             token_n[0] += 1
             token = b"T%05d" % token_n[0]
+            if len(op) > 4 and op[4]:
+                token += b"s" * 1500          # too long for one APDU: the request (and its answer) travel in segments
+                stats["segmented_requests"] = stats.get("segmented_requests", 0) + 1
             req = L.apdu.ConfirmedPrivateTransferRequest(vendorID=999, serviceNumber=1)
             req.serviceParameters = L.Any(L.OctetString(token))
             req.pduDestination = L.Address(peer)
@@ -200,12 +211,18 @@ def run_history(ops, nservers):
                 fails.append(("live-invoke-id-handed-out", "client %d: invoke ID %d to peer %d was assigned while request %r with the same ID is still live"
                               % (cm, inv, peer, live[(cm, peer, inv)]["token"])))
                 break
-            shadowed = (peer, cm, inv) in server_busy
+            # (a segmented answer keeps the serving side busy with the old request until the transfer is over or given up)
+            lingering = any(tr.invokeID == inv and tr.pdu_address == L.Address(cm) for tr in servers[peer].smap.serverTransactions)
+            shadowed = (peer, cm, inv) in server_busy or lingering
             live[(cm, peer, inv)] = dict(token=token, eligible=set(), eligible_kinds=set())
             if shadowed:
                 # the server is still working on an older request with this very (client, ID): its answer, when it
                 # comes, is indistinguishable from an answer to the new request
-                live[(cm, peer, inv)]["eligible"].add(b"R" + server_busy[(peer, cm, inv)])
+                for old_token in used_tokens.get((peer, cm, inv), []):
+                    live[(cm, peer, inv)]["eligible"].add(b"R" + old_token)
+                if lingering:
+                    live[(cm, peer, inv)]["eligible_kinds"].add("abort")
+            used_tokens.setdefault((peer, cm, inv), []).append(token)
             submitted.append(dict(client=cm, peer=peer, invoke=inv, token=token, shadowed=shadowed))
             if not shadowed:
                 server_busy[(peer, cm, inv)] = token
@@ -216,6 +233,8 @@ def run_history(ops, nservers):
             peer = SERVERS[op[1] % nservers]
             app = servers[peer].app
             if app.pending:
+                k_ = app.pending[op[2] % len(app.pending)]
+                mark_answered(peer, k_.pduSource.addrAddr[0], k_.apduInvokeID)
                 cm, inv = app.answer(op[2] % len(app.pending))
                 server_busy.pop((peer, cm, inv), None)
                 settle()
@@ -275,6 +294,7 @@ def run_history(ops, nservers):
         # every server answers what it still holds, then everything must come to rest
         for peer, st_ in servers.items():
             while st_.app.pending:
+                mark_answered(peer, st_.app.pending[0].pduSource.addrAddr[0], st_.app.pending[0].apduInvokeID)
                 cm, inv = st_.app.answer(0)
                 server_busy.pop((peer, cm, inv), None)
                 settle()
@@ -325,6 +345,9 @@ def _note_injection(live, client, src, frame, stats):
         stats["client_flagged"] = stats.get("client_flagged", 0) + 1
         return          # sent in the peer's role as a client: not a reply to anything we asked
     stats["matched_injections"] += 1
+    # a reply with the right address and ID may find the requester in a state where it can only abort (e.g. while it retransmits
+    # a segmented request): still an outcome caused by that peer and that ID
+    ent["eligible_kinds"].add("abort")
     if a["type"] == RA.CACK:
         try:
             tags, _ = R1.decode_tags(a["data"])
@@ -345,13 +368,19 @@ def io_client():
     if _ioapp is None:
         L = lablib()
 
-        class ClientIO(L.app.ApplicationIOController):
+        from bacpypes.service.device import WhoIsIAmServices
+
+        class ClientIO(L.app.ApplicationIOController, WhoIsIAmServices):
             _startup_disabled = True
 
             def __init__(self, device):
                 L.app.ApplicationIOController.__init__(self, device)
         _ioapp = ClientIO
     return _ioapp
+
+
+def raw_unconfirmed(service, body):
+    return RN.encode(dict(msg=None, dadr=None, sadr=None, er=False, prio=0, hop=None, data=bytes([0x10, service]) + bytes(body)))
 
 
 def run_io_history(ops, nservers):
@@ -363,6 +392,7 @@ def run_io_history(ops, nservers):
     lab = StackLab()
     boot.swallowed.take()
     cl = lab.add_stack(1, io_client(), retries=3, apdu_timeout=1000000, seg_timeout=500, app_timeout=3000)
+    lab.add_attacker(99)
     servers = {}
     for mac in SERVERS[:nservers]:
         servers[mac] = lab.add_stack(mac, Server, retries=3, apdu_timeout=1000, seg_timeout=500, app_timeout=10000000)
@@ -413,6 +443,16 @@ def run_io_history(ops, nservers):
                 app = servers[SERVERS[op[1] % nservers]].app
                 if app.pending:
                     app.answer(op[2] % len(app.pending))
+            elif k == "unconf":
+                # unconfirmed traffic to a peer that may have a confirmed request outstanding: sent directly by the application ...
+                stats["unconfirmed"] = stats.get("unconfirmed", 0) + 1
+                rq = L.apdu.WhoIsRequest()
+                rq.pduDestination = L.Address(SERVERS[op[1] % nservers])
+                cl.app.request(rq)
+            elif k == "whois":
+                # ... or provoked by the peer: its Who-Is makes the stock service answer with an I-Am addressed to it
+                stats["unconfirmed"] = stats.get("unconfirmed", 0) + 1
+                lab.inject(SERVERS[op[1] % nservers], 1, raw_unconfirmed(8, b""))
             elif k == "adv":
                 lab.run(lab.now + op[1])
                 VC.clk.now = max(VC.clk.now, lab.now)
@@ -484,6 +524,8 @@ def judge(case):
         labels.append("explicit-collision-refused")
     if stats["max_live_per_peer"] >= 10:
         labels.append("live>=10")
+    if stats.get("segmented_requests"):
+        labels.append("segmented-request")
     return Verdict(fails, nt, labels)
 
 
@@ -504,7 +546,8 @@ def plan(tier, seed):
 
 def op_strategy():
     from hypothesis import strategies as st
-    req = st.tuples(st.just("req"), st.integers(0, 1), st.integers(0, 3), st.one_of(st.none(), st.none(), st.integers(0, 6), st.integers(0, 255))).map(list)
+    req = st.tuples(st.just("req"), st.integers(0, 1), st.integers(0, 3), st.one_of(st.none(), st.none(), st.integers(0, 6), st.integers(0, 255)),
+                    st.sampled_from([False, False, False, True])).map(list)
     ans = st.tuples(st.just("ans"), st.integers(0, 3), st.integers(0, 7)).map(list)
     dup = st.tuples(st.just("dup"), st.integers(0, 30)).map(list)
     forge = st.tuples(st.just("forge"), st.sampled_from(["ack", "ack", "simpleack", "error", "segack", "abort", "reject", "abort-by-client", "abort-by-client", "segack-by-client"]), st.integers(0, 3),
@@ -525,7 +568,8 @@ def run(spec, ctx):
         io2 = st.tuples(st.just("io2"), st.integers(0, 3), st.integers(0, 3)).map(list)
         ans = st.tuples(st.just("ans"), st.integers(0, 3), st.integers(0, 7)).map(list)
         adv = st.tuples(st.just("adv"), st.sampled_from([0.0, 0.3, 2.0])).map(list)
-        strat = st.tuples(st.lists(st.one_of(io_, io_, io2, ans, ans, ans, adv), min_size=2, max_size=40), st.integers(1, 3)).map(lambda t: dict(k="io", ops=t[0], nservers=t[1]))
+        unconf = st.tuples(st.sampled_from(["unconf", "whois"]), st.integers(0, 3)).map(list)
+        strat = st.tuples(st.lists(st.one_of(io_, io_, io2, ans, ans, ans, adv, unconf), min_size=2, max_size=40), st.integers(1, 3)).map(lambda t: dict(k="io", ops=t[0], nservers=t[1]))
         ctx.for_all(strat, spec["n"])
     elif kind == "burst":
         # many requests outstanding at once (up to 40), then answers in any order mixed with injections and time
